@@ -19,10 +19,12 @@ open CuqiVerif CuqiVerif.Proto CuqiVerif.C02
     sarg  adapt(0|1) scale|none                            -> scale | err
     leg   K int|float width dim S|A N Nb prodNa x0 logd0 grad0 scale0 logLam0 zetaInvs newScales inputs
                                                            -> points logds grads scales accRows trace nUpd | err | err-leaf | err-cert
-    exp   K int|float width dim x0 logd0 grad0 scale0 logLam0 zetaInvs newScales phases
+    lstep K dim x logd grad scale nargs inp                 -> point | err            (legacy step / step_tune)
+    exp   K int|float width dim x0 logd0 grad0 scale0 logLam0 zetaInvs newScales inits phases
                                                            -> x logd grad scale logLam accRows samples trace | err-leaf | err-cert
       inputs : transitions `z~ells~tstars~gstar~aux` joined by `|` (`_` = none)
-      phases : `S:inputs`, `W:tune_freq*Nb:inputs`, `R:scale`, `L` joined by `#`
+      phases : `S:inputs`, `W:tune_freq*Nb:inputs`, `R:scale`, `L`, `I:x0:scale0:logLam0` (reinitialize), `T:x0:scale0:logLam0`
+               (target = …; reinitialize) joined by `#`; inits : `t0~g0` per (re)initialisation joined by `|`
   The recorded target values (`tstar`, `gstar`, `tstars`) are what the implementation's target
   returned at its proposal(s); the model is the bookkeeping around them.
 -/
@@ -85,7 +87,7 @@ def inpOk (k : Kernel) (dim : Nat) (i : Inp) : Bool :=
 def zetasOk (zs : Vec) : Bool :=
   (zs.zipIdx.all (fun (z, n) => sqrtCert z ((n : Rat) + 1)))
 
-def parsePhase (s : String) (zs : Vec) (ns : List Vec) : Option (Phase Inp) :=
+def parsePhaseB (s : String) (zs : Vec) (ns : List Vec) : Option (Phase Inp) :=
   match s.splitOn ":" with
   | ["S", inps] => Phase.sample <$> parseInps inps
   | ["W", prod, inps] => do
@@ -96,10 +98,25 @@ def parsePhase (s : String) (zs : Vec) (ns : List Vec) : Option (Phase Inp) :=
   | ["L"] => some Phase.reload
   | _ => none
 
-def phaseInputs : Phase Inp → List Inp
-  | .sample i => i
-  | .warmup _ _ _ i => i
+def parsePhase (s : String) (zs : Vec) (ns : List Vec) : Option (PhaseT Nat Inp) :=
+  match s.splitOn ":" with
+  | ["I", x0, sc0, lam0] => do          -- reinitialize() (initial_point possibly re-assigned)
+    some (PhaseT.reinit (← parseVec x0) (← parseVec sc0) (← parseXs lam0))
+  | ["T", x0, sc0, lam0] => do          -- target = …; reinitialize()
+    some (PhaseT.retarget 0 (← parseVec x0) (← parseVec sc0) (← parseXs lam0))
+  | _ => PhaseT.base <$> parsePhaseB s zs ns
+
+def phaseInputs : PhaseT Nat Inp → List Inp
+  | .base (.sample i) => i
+  | .base (.warmup _ _ _ i) => i
   | _ => []
+
+/-- recorded values of the target at the (re)initialisation points: `t0~g0` joined by `|` -/
+def parseInits (s : String) : Option (List (XVal × Vec)) :=
+  if s = "_" then some [] else (s.splitOn "|").mapM (fun e =>
+    match e.splitOn "~" with
+    | [t, g] => do some ((← parseX t), (← parseVec g))
+    | _ => none)
 
 def step : List String → String
   | ["pcnx", k, cache, scale, ell, tstar] =>
@@ -153,11 +170,20 @@ def step : List String → String
               if L.nUpd > ns.length ∨ L.nUpd > zs.length then "err-leaf" else fmt chain acc L.trace L.nUpd
       | _, _, _, _, _, _, _ => "bad-op"
     | _, _, _, _, _, _, _, _ => "bad-op"
-  | ["exp", k, dt, width, dim, x0, logd0, grad0, scale0, lam0, zs, ns, phases] =>
+  | ["lstep", k, dim, x, logd, grad, scale, nargs, inp] =>
+    match parseK k, parseNat dim, parseVec x, parseX logd, parseVec grad, parseVec scale, parseNat nargs, parseInp inp with
+    | some k, some dim, some x, some logd, some grad, some scale, some nargs, some inp =>
+      if !(k = .legMH ∨ k = .legPCN ∨ k = .legMALA ∨ k = .legCWMH) ∨ x.length ≠ dim ∨ dim = 0 ∨ !inpOk k dim inp then "bad-op"
+      else
+        match legStepTune (if k = .legCWMH then dim else 1) (stepLeaf k false) { x := x, logd := logd, grad := grad, scale := scale } inp nargs with
+        | some v => fmtVec v
+        | none => "err"
+    | _, _, _, _, _, _, _, _ => "bad-op"
+  | ["exp", k, dt, width, dim, x0, logd0, grad0, scale0, lam0, zs, ns, inits, phases] =>
     match parseK k, parseDt dt, parseNat width, parseNat dim, parseVec x0, parseX logd0, parseVec grad0 with
     | some k, some isInt, some width, some dim, some x0, some logd0, some grad0 =>
-      match parseVec scale0, parseXs lam0, parseVec zs, parseMat ns with
-      | some scale0, some lam0, some zs, some ns =>
+      match parseVec scale0, parseXs lam0, parseVec zs, parseMat ns, parseInits inits with
+      | some scale0, some lam0, some zs, some ns, some inits =>
         match (if phases = "_" then some [] else (phases.splitOn "#").mapM (fun p => parsePhase p zs ns)) with
         | some phs =>
           if !(k = .expMH ∨ k = .expPCN ∨ k = .expMALA ∨ k = .expCWMH) ∨ x0.length ≠ dim ∨ dim = 0
@@ -166,11 +192,13 @@ def step : List String → String
           else
             let st0 : St := { x := x0, logd := logd0, grad := grad0, scale := scale0 }
             let s0 := smpInit width st0 lam0
-            let s := runSession k.tuner k.window dim (stepLeaf k isInt) s0 s0 phs
-            if s.nUpd > ns.length ∨ s.nUpd > zs.length then "err-leaf"
+            let S := runSessionT k.tuner k.window dim width (fun _ => stepLeaf k isInt)
+              (fun n _ _ => inits.getD n (.nan, [])) s0 { tgt := 0, s := s0, nInit := 0 } phs
+            let s := S.s
+            if s.nUpd > ns.length ∨ s.nUpd > zs.length ∨ S.nInit > inits.length then "err-leaf"
             else s!"{fmtVec s.st.x} {fmtX s.st.logd} {fmtVec s.st.grad} {fmtVec s.st.scale} {fmtXs s.logLam} {fmtBitRows s.acc} {fmtMat s.samples} {fmtXRows s.trace}"
         | none => "bad-op"
-      | _, _, _, _ => "bad-op"
+      | _, _, _, _, _ => "bad-op"
     | _, _, _, _, _, _, _ => "bad-op"
   | ["mh", k, x, logd, scale, xi, ell, tstar] =>
     match parseK k, parseVec x, parseX logd, parseRat scale, parseVec xi, parseX ell, parseX tstar with
